@@ -57,7 +57,7 @@ theorem bt_scan_named (c : Cfg) (hc : Proved c) (t : Tree) (h : t.ok = true) (p 
     t.scan c.ascGt (some p) none cont = visited cont (specScan t.inorder .asc (some p) false) ∧
     t.scan c.descLe (some p) none cont = visited cont (specScan t.inorder .desc (some p) true) ∧
     t.scan c.descLt (some p) none cont = visited cont (specScan t.inorder .desc (some p) false) := by
-  obtain ⟨h1, h2, h3, h4, _, _⟩ := hc
+  obtain ⟨h1, h2, h3, h4, _, _, _⟩ := hc
   simp [Tree.scan, Tree.scanWith, h1, h2, h3, h4, Arg.eval, bt_scan_spec t h, effIncl, runCb_collect]
 
 /-- the vendored scans without a start pivot / with a stop bound -/
@@ -75,26 +75,38 @@ theorem bt_scan_vendored (t : Tree) (h : t.ok = true) (p p2 : Int) (cont : Item 
     argsAscendRange, argsDescendRange, Arg.eval, bt_scan_spec t h, effIncl, runCb_collect, specScan]
 
 /-- `iterWalk` (all four wrapper scans): the result is the first `n` items of the specified scan that pass
-    the filter; `n = 0` gives the empty result, an empty tree gives the empty result -/
+    the filter, for EVERY limit `n` (no bound: the configuration must not pre-size by `n`); `n = 0` gives the empty
+    result, an empty tree gives the empty result -/
 theorem bt_iterwalk_spec (c : Cfg) (hc : Proved c) (t : Tree) (h : t.ok = true) (k : Int) (f : Item → Bool) (n : Nat) :
     wAscendGte c t k f n = .items (((specScan t.inorder .asc (some k) true).filter f).take n) ∧
     wAscendGt c t k f n = .items (((specScan t.inorder .asc (some k) false).filter f).take n) ∧
     wDescendLte c t k f n = .items (((specScan t.inorder .desc (some k) true).filter f).take n) ∧
     wDescendLt c t k f n = .items (((specScan t.inorder .desc (some k) false).filter f).take n) := by
-  obtain ⟨h1, h2, h3, h4, h5, _⟩ := hc
+  obtain ⟨h1, h2, h3, h4, h5, _, h7⟩ := hc
   cases n with
   | zero => simp [wAscendGte, wAscendGt, wDescendLte, wDescendLt, iterWalk]
   | succ m =>
     have hn0 : ¬ ((m + 1 : Nat) : Int) = 0 := by omega
     have hn1 : ¬ ((m + 1 : Nat) : Int) < 0 := by omega
-    simp only [wAscendGte, wAscendGt, wDescendLte, wDescendLt, iterWalk, hn0, hn1, if_false, Tree.scanWith,
+    simp only [wAscendGte, wAscendGt, wDescendLte, wDescendLt, iterWalk, hn0, hn1, if_false, Tree.scanWith, h7,
       h1, h2, h3, h4, Arg.eval, bt_scan_spec t h, effIncl, Int.toNat_natCast,
       runCb_walk c.limitCmp h5 (m + 1) f _ 0 [] (Nat.zero_le _), List.nil_append, Nat.sub_zero,
       Bool.or_false, Bool.not_false, Bool.and_true, beforeStop_none, takeWhile_true]
     simp
 
-theorem bt_iterwalk_zero_and_empty (c : Cfg) (t : Tree) (a : ScanArgs) (k : Int) (f : Item → Bool) :
-    iterWalk c t a k f 0 = .items [] := by simp [iterWalk]
+theorem bt_iterwalk_zero_and_empty (c : Cfg) (hc : Proved c) (t : Tree) (a : ScanArgs) (k : Int) (f : Item → Bool)
+    (d : Nat) (hd : 2 ≤ d) (n : Nat) :
+    iterWalk c t a k f 0 = .items [] ∧ wAscendGte c (Tree.new d) k f n = .items [] ∧
+    wAscendGt c (Tree.new d) k f n = .items [] ∧ wDescendLte c (Tree.new d) k f n = .items [] ∧
+    wDescendLt c (Tree.new d) k f n = .items [] := by
+  have hok : (Tree.new d).ok = true := by simp [Tree.new, Tree.ok, hd]
+  have hin : (Tree.new d).inorder = [] := rfl
+  obtain ⟨h1, h2, h3, h4⟩ := bt_iterwalk_spec c hc (Tree.new d) hok k f n
+  refine ⟨by simp [iterWalk], ?_, ?_, ?_, ?_⟩
+  · rw [h1, hin]; simp [specScan]
+  · rw [h2, hin]; simp [specScan]
+  · rw [h3, hin]; simp [specScan]
+  · rw [h4, hin]; simp [specScan]
 
 /-! ### ordered-set equivalence and balance: every write operation -/
 
@@ -239,7 +251,7 @@ theorem bt_history (d : Nat) (hd : 2 ≤ d) (ops : List Op) :
   exact this
 
 /-- the wrapper's tree (degree from the source) starts valid -/
-theorem bt_wrapper_new (c : Cfg) (hc : Proved c) : (wNew c).ok = true := (new_ok _ hc.2.2.2.2.2).1
+theorem bt_wrapper_new (c : Cfg) (hc : Proved c) : (wNew c).ok = true := (new_ok _ hc.2.2.2.2.2.1).1
 
 /-! ### clone isolation (layer B: node store with owner tags and the shared free list) -/
 
@@ -284,6 +296,16 @@ theorem bt_clone_separates (H : Cow.Heap) (t : Cow.HTree) (c1 c2 : Nat) (r : Nat
     Cow.Sep H (Cow.cloneB t c1 c2).1.cow r ∧ Cow.Sep H (Cow.cloneB t c1 c2).2.cow r :=
   Cow.clone_sep H t c1 c2 r hfresh hlive
 
+/-- in every store reached by ANY program of clones and writes (insert, delete, delete-min/max, clear) from the
+    empty tree, the two tags the next `Clone` takes are carried by no cell — the `hfresh` hypothesis of
+    `bt_clone_separates`. (Its other hypothesis, `hlive` — every cell reachable from a root exists and is not parked in
+    the free list — is NOT proved for histories: it needs that a cell freed by a merge/collapse/clear is referenced
+    by no other cell, i.e. the no-aliasing invariant named above.) -/
+theorem bt_clone_tags_fresh (degree cap : Nat) (ops : List Cow.POp) :
+    let w := ops.foldl Cow.World.step (Cow.World.init degree cap)
+    ∀ id, w.H.tag id ≠ some w.next ∧ w.H.tag id ≠ some (w.next + 1) :=
+  Cow.tagsBelow_fresh _ _ (Cow.World.good_run degree cap ops).1
+
 /-- a concrete clone program on the store: build 1..7, clone, write to the clone; the original's cells are
     untouched while the clone owns the copied path -/
 def cowDemo : Cow.HTree × Cow.HTree × Cow.Heap :=
@@ -296,13 +318,22 @@ def cowDemo : Cow.HTree × Cow.HTree × Cow.Heap :=
 
 example : (cowDemo.1.inorder cowDemo.2.2).map (·.val) = [1, 2, 3, 4, 5, 6, 7] := by decide +kernel
 example : (cowDemo.2.1.inorder cowDemo.2.2).map (·.val) = [2, 3, 400, 5, 6, 7] := by decide +kernel
+/-- non-vacuity of `Sep`: in the store of `cowDemo` (reached by inserts, a clone, an insert and a delete through the
+    clone) the original's root is separated from the clone's tag and the clone's root from the original's tag -/
+example : Cow.Sep cowDemo.2.2 cowDemo.2.1.cow (cowDemo.1.root.getD 0) :=
+  Cow.sep_of_test _ _ 4 _ (by decide +kernel)
+example : Cow.Sep cowDemo.2.2 cowDemo.1.cow (cowDemo.2.1.root.getD 0) :=
+  Cow.sep_of_test _ _ 4 _ (by decide +kernel)
+/-- … and `Clear` through the clone (a write that parks the clone's own cells) leaves the original readable -/
+example : (cowDemo.1.inorder ((Cow.clearB cowDemo.2.1 true) cowDemo.2.2).2).map (·.val) = [1, 2, 3, 4, 5, 6, 7] := by
+  decide +kernel
 example : cowDemo.1.owned cowDemo.2.2 = (0, 4) ∧ (cowDemo.2.1.owned cowDemo.2.2).1 > 0 := by decide +kernel
 
 /-! ### non-vacuity, and witnesses that `Proved` is tight -/
 
 /-- the configuration found on today's tree -/
 def cfgToday : Cfg := ⟨⟨.asc, .pivot, .nil, true, false⟩, ⟨.asc, .pivot, .nil, false, false⟩,
-    ⟨.desc, .pivot, .nil, true, false⟩, ⟨.desc, .pivot, .nil, false, false⟩, .ge, 2⟩
+    ⟨.desc, .pivot, .nil, true, false⟩, ⟨.desc, .pivot, .nil, false, false⟩, .ge, 2, .capped⟩
 
 example : Proved cfgToday := by decide
 example : Proved { cfgToday with limitCmp := .eq, wrapperDegree := 3 } := by decide
@@ -336,6 +367,24 @@ theorem witness_ascGt_hit :
 theorem witness_limit_gt :
     wAscendGte { cfgToday with limitCmp := .gt } sampleTree 0 (fun _ => true) 2 = .items [⟨1, 1⟩, ⟨2, 2⟩, ⟨5, 5⟩] := by
   decide +kernel
+
+/-- with the eager `make([]Node, 0, n)` the scan of a five-item tree faults for the limit `MaxInt64` (the obvious
+    "no limit" idiom): the property's "any limit n" is false of that configuration -/
+theorem witness_eager_prealloc_faults :
+    wAscendGte { cfgToday with prealloc := .eager } sampleTree 0 (fun _ => true) 9223372036854775807 = .fault := by
+  decide +kernel
+
+/-- … and is at the mercy of the machine's memory from 2^24 cells on -/
+theorem witness_eager_prealloc_memory :
+    wAscendGte { cfgToday with prealloc := .eager } sampleTree 6 (fun _ => true) (2 ^ 40) =
+      .itemsOrFault [⟨6, 6⟩, ⟨7, 7⟩, ⟨9, 9⟩, ⟨10, 10⟩] := by
+  decide +kernel
+
+theorem not_proved_eager_prealloc : ¬ Proved { cfgToday with prealloc := .eager } := by decide
+
+/-- the capped pre-sizing gives the specified result for the same limit -/
+example : wAscendGte cfgToday sampleTree 6 (fun _ => true) 9223372036854775807 =
+    .items [⟨6, 6⟩, ⟨7, 7⟩, ⟨9, 9⟩, ⟨10, 10⟩] := by decide +kernel
 
 theorem not_proved_limit_gt : ¬ Proved { cfgToday with limitCmp := .gt } := by decide
 theorem not_proved_ascGt_inclusive : ¬ Proved { cfgToday with ascGt := ⟨.asc, .pivot, .nil, true, false⟩ } := by decide
